@@ -36,6 +36,7 @@ def check(c: Check):
     clause_g(c)
     clause_h(c)
     clause_i(c)
+    clause_j(c)
     from .common import sweep_records
     sweep_records(c, 'C03-rec', ['exactly_lib.test_case'], floor=10)
 
@@ -814,3 +815,66 @@ def clause_i(c: Check):
             outs.add(k)
         c.expect(outs == {'exactly_lib.execution.impl.symbol_validation:' + target}, 'C03-i',
                  'validate_symbol_usage/' + cls.name, 'a %s is handled by %s' % (cls.name, outs), vu.loc())
+
+
+# ---------------------------------------------------------------- j
+def clause_j(c: Check):
+    """act-phase syntax: the command-line actor examines the act source to its end - whatever follows the program
+    (a second command line) is a syntax error found at parse time, before anything executes, never silently ignored.
+    Typestate of the remainder check: it returns normally only when the end of the source has been established, or
+    by handing the rest to itself after consuming a blank line."""
+    ix, fo = c.ix, c.fo
+    AP = 'exactly_lib.impls.actors.program.parse'
+    rem = ix.func(AP + ':_syntax_error_if_not_at_eof')
+    apply_ = ix.func(AP + ':Parser.apply')
+
+    class H(Hooks):
+        loop_bound = 2
+
+        def inline(self, fd, st):
+            return False
+
+    n_ret = 0
+    kinds = set()
+    for p in util.func_paths(ix, fo, rem, H()):
+        if p.kind != 'return':
+            kinds.add('raises')
+            continue
+        n_ret += 1
+        at_eof = None
+        consumed = False
+        delegated = False
+        for e in p.trace:
+            if e.kind == 'guard':
+                test, truth = e.data
+                if isinstance(test, ast.Attribute) and test.attr == 'is_at_eof':
+                    at_eof = truth
+                    delegated = False
+            elif e.kind == 'call':
+                if isinstance(e.node.func, ast.Attribute) and e.node.func.attr in ('consume_current_line', 'consume'):
+                    consumed = True
+                    at_eof = None
+                    delegated = False
+                elif e.data.get('callee') == rem:
+                    delegated = consumed
+        ok = at_eof is True or delegated
+        kinds.add('at-eof' if at_eof is True else ('delegates' if delegated else 'other'))
+        c.expect(ok, 'C03-j', 'act-source/examined-to-its-end',
+                 'the check of what follows the program in [act] returns although the end of the source is not '
+                 'established (a second command line is silently ignored and the first one executed)', rem.loc())
+    c.floor('C03-j', 'returning paths of the remainder check', n_ret, 1)
+    c.expect('raises' in kinds, 'C03-j', 'act-source/superfluous-is-an-error',
+             'nothing after the program is ever reported as an error', rem.loc())
+    # apply: parse the program, then check the remainder of the same source, then build the object
+    ok = False
+    for p in util.func_paths(ix, fo, apply_, H()):
+        if p.kind != 'return':
+            continue
+        calls = p.calls()
+        pi = [i for i, e in enumerate(calls) if isinstance(e.node.func, ast.Attribute) and e.node.func.attr == '_parse_program']
+        ri = [i for i, e in enumerate(calls) if e.data.get('callee') == rem]
+        ok = len(pi) == 1 and len(ri) == 1 and pi[0] < ri[0] \
+             and calls[pi[0]].data['args'] and calls[ri[0]].data['args'] \
+             and util.root_sym(calls[pi[0]].data['args'][0]) is util.root_sym(calls[ri[0]].data['args'][0])
+    c.expect(ok, 'C03-j', 'act-source/remainder-checked-after-parse',
+             'the command-line actor does not check the rest of the act source after parsing the program', apply_.loc())
